@@ -15,8 +15,8 @@ theorem step_load_ok (plug : Registry → Plug) (s : Session) (f : SrcFile) (r :
     step plug s (.load f true) = ({ s with reg := r }, .accepted) := by
   simp only [step, Bool.not_true, Bool.false_eq_true, if_false, h]
 
-theorem step_load_dup (plug : Registry → Plug) (s : Session) (f : SrcFile) (e : Registry.AddErr) (h : tryLoad s.reg f = .error e) :
-    step plug s (.load f true) = (s, .rejected (.add e)) := by
+theorem step_load_dup (plug : Registry → Plug) (s : Session) (f : SrcFile) (e : Reject) (h : tryLoad s.reg f = .error e) :
+    step plug s (.load f true) = (s, .rejected e) := by
   simp only [step, Bool.not_true, Bool.false_eq_true, if_false, h]
 
 theorem step_process (plug : Registry → Plug) (s : Session) :
@@ -33,7 +33,7 @@ theorem step_load_cases (plug : Registry → Plug) (s : Session) (f : SrcFile) (
   | true =>
     cases h : tryLoad s.reg f with
     | ok r => exact .inl ⟨r, rfl, rfl, step_load_ok plug s f r h⟩
-    | error e => exact .inr ⟨.add e, step_load_dup plug s f e h⟩
+    | error e => exact .inr ⟨e, step_load_dup plug s f e h⟩
 
 /-- A rejected load leaves the state as it was: equal, not merely equivalent. -/
 theorem step_rejected_state (plug : Registry → Plug) (s : Session) (f : SrcFile) (ok : Bool) (w : Reject)
@@ -49,13 +49,6 @@ theorem step_accepted (plug : Registry → Plug) (s : Session) (f : SrcFile) (ok
   rcases step_load_cases plug s f ok with ⟨r, _, hr, e⟩ | ⟨w', e⟩
   · exact ⟨r, hr, by rw [e]⟩
   · rw [e] at h; cases h
-
-theorem loadFile_of_ok (reg r : Registry) (f : SrcFile) (h : tryLoad reg f = .ok r) : loadFile reg f = r := by
-  rw [loadFile_eq, h]
-
-theorem loadFile_of_error (reg : Registry) (f : SrcFile) (e : Registry.AddErr) (h : tryLoad reg f = .error e) :
-    loadFile reg f = reg := by
-  rw [loadFile_eq, h]
 
 /-- No op writes the options. -/
 theorem step_opts (plug : Registry → Plug) (s : Session) (op : Op) : (step plug s op).1.opts = s.opts := by
